@@ -9,7 +9,7 @@
 (*   prepare(new)   parent: tasks.put, preceded by Process.start iff new   *)
 (*                  -> P_Prepare, new <=> NeedsNew                         *)
 (*   take(g)        worker g: tasks.get returned        -> W_Take(g)       *)
-(*   answer(g)      worker g: results.put    -> W_Finish(g) or W_LatePut(g)*)
+(*   answer(g, ok)  worker g: results.put((ok, ..)) -> W_Finish(g) / W_LatePut(g)*)
 (*   got            parent: results.get returned        -> P_Get           *)
 (*   kill           parent: os.kill                     -> P_Kill          *)
 (*   finally        parent: terminate.set() of the finally block           *)
@@ -43,7 +43,8 @@ IsEv(e) == l <= Len(Trace) /\ Ev.e = e
 
 TPrepare   == IsEv("prepare") /\ (Ev.new <=> NeedsNew) /\ P_Prepare
 TTake(g)   == IsEv("take") /\ Ev.g = g /\ W_Take(g)
-TAnswer(g) == IsEv("answer") /\ Ev.g = g /\ (W_Finish(g) \/ W_LatePut(g))
+TAnswer(g) == /\ IsEv("answer") /\ Ev.g = g /\ (W_Finish(g) \/ W_LatePut(g))
+              /\ LET q == results'[QW(g)] IN q[Len(q)].ok = Ev.ok      \* the `succeeded' flag of the pair it put
 TGot       == IsEv("got") /\ P_Get
 TKill      == IsEv("kill") /\ P_Kill
 TFinally   == IsEv("finally") /\ P_Finally
